@@ -358,6 +358,47 @@ func (c *cliFront) plan(o *obj, st Step) (*cliCall, string) {
 			ret["f"] = fstr(x)
 			return true
 		}}, ""
+	// ---- seeded random commands: judged by the same relations as the library calls (any admissible outcome)
+	case "ShuffleSequences":
+		return &cliCall{argv: append([]string{"shuffle", "seqs", "--seed", strconv.Itoa(ai(a, "seed"))}, un...)}, ""
+	case "Swap":
+		if !needsAlign() {
+			return nil, "bag"
+		}
+		return &cliCall{argv: []string{"shuffle", "swap", "--seed", strconv.Itoa(ai(a, "seed")), "--rate=" + fstr(afrac(a, "rp", "rq")),
+			"--pos=" + fstr(afrac(a, "posp", "posq"))}}, ""
+	case "Recombine":
+		if !needsAlign() {
+			return nil, "bag"
+		}
+		argv := []string{"shuffle", "recomb", "--seed", strconv.Itoa(ai(a, "seed")), "--prop-seq=" + fstr(afrac(a, "pp", "pq")),
+			"--prop-length=" + fstr(afrac(a, "lp", "lq"))}
+		if ab(a, "swap") {
+			argv = append(argv, "--swap")
+		}
+		return &cliCall{argv: argv}, ""
+	case "Mutate":
+		if !needsAlign() {
+			return nil, "bag"
+		}
+		return &cliCall{argv: []string{"mutate", "snvs", "--seed", strconv.Itoa(ai(a, "seed")), "--rate=" + fstr(afrac(a, "rp", "rq"))}}, ""
+	case "AddGaps":
+		if !needsAlign() {
+			return nil, "bag"
+		}
+		return &cliCall{argv: []string{"mutate", "gaps", "--seed", strconv.Itoa(ai(a, "seed")), "--rate=" + fstr(afrac(a, "lp", "lq")),
+			"--prop-seq=" + fstr(afrac(a, "pp", "pq"))}}, ""
+	case "Sample", "SampleSeqBag":
+		if (st.Op == "Sample") != needsAlign() {
+			return nil, "bag"
+		}
+		return &cliCall{argv: append([]string{"sample", "seqs", "--seed", strconv.Itoa(ai(a, "seed")), "--nb-seq=" + strconv.Itoa(ai(a, "nb"))}, un...)}, ""
+	case "RandSubAlign":
+		if !needsAlign() {
+			return nil, "bag"
+		}
+		return &cliCall{argv: []string{"sample", "sites", "--seed", strconv.Itoa(ai(a, "seed")), "--length=" + strconv.Itoa(ai(a, "len")),
+			"--consecutive=" + strconv.FormatBool(ab(a, "consecutive"))}}, ""
 	case "ReverseComplement":
 		return &cliCall{argv: append([]string{"revcomp"}, un...)}, ""
 	case "Sort":
